@@ -75,6 +75,34 @@ theorem contentAt_file {fs : FS} {q : Path} {c : Content} {g : Bool} (h : fs q =
 theorem isLink_update_file (fs : FS) (p : Path) (o : Content) (g : Bool) : isLink (fs.update p (.file o g)) p = false := by
   simp [isLink]
 
+/-- Resolution survives any change of the file system that keeps every symlink and turns nothing that
+    exists and is not a symlink into a symlink or into nothing (which is all the action loop can do). -/
+theorem resolveN_stable {fs fs' : FS} (hlink : ∀ x, isLink fs x = true → fs' x = fs x)
+    (hnodes : ∀ x, fs' x = fs x ∨ ∃ o, fs' x = some (.file o false)) :
+    ∀ (n : Nat) (p q : Path), resolveN fs n p = some q → resolveN fs' n p = some q
+  | 0, p, q, h => by simp [resolveN] at h
+  | n + 1, p, q, h => by
+    unfold resolveN at h ⊢
+    split at h
+    · simp at h
+    · rename_i t hp
+      have : fs' p = some (.link t) := by rw [hlink p (by simp [isLink, hp]), hp]
+      rw [this]
+      exact resolveN_stable hlink hnodes n t q h
+    · rename_i node hne hp
+      rcases hnodes p with h1 | ⟨o, h1⟩
+      · rw [h1, hp]
+        cases node with
+        | link t => exact absurd rfl (hne t)
+        | file c g => exact h
+        | dir es => exact h
+      · rw [h1]; exact h
+
+theorem isLink_stable {fs fs' : FS} (hlink : ∀ x, isLink fs x = true → fs' x = fs x) {p : Path}
+    (h : isLink fs p = true) : isLink fs' p = true := by
+  have := hlink p h
+  unfold isLink at h ⊢; rw [this]; exact h
+
 /-! ### The cached attributes -/
 
 theorem getInput_ok {env : Env} {fs : FS} {st st1 : MState} {c : Content} {ev : List Event}
@@ -217,7 +245,7 @@ theorem step_fs (env : Env) (a : Action) (fs : FS) (st : MState) (ans : List Str
     · split <;> rfl
   | symlink pol =>
     left
-    cases pol <;> simp only [step] <;> (try split) <;> rfl
+    cases pol <;> simp only [step] <;> (try split) <;> (try split) <;> rfl
 
 theorem step_notdone_fs {env : Env} {a : Action} {fs : FS} {st : MState} {ans : List Str}
     (h : (step env a fs st ans).oc ≠ .done) : (step env a fs st ans).fs = fs := by
@@ -295,11 +323,35 @@ theorem step_simple (env : Env) (a : Action) (fs : FS) (st : MState) (ans : List
   · split <;> simp
   · simp
 
-theorem step_follow (env : Env) (fs : FS) (st : MState) (ans : List Str) :
+/-- `symlink_follow` meets a symlink whose real path `Filename` refuses. -/
+def followRefused (env : Env) (fs : FS) (st : MState) : Bool :=
+  isLink fs st.cur && !env.realSafe ((resolve fs st.cur).getD st.cur)
+
+/-- `symlink_follow` when `Filename(realpath)` raises: an ordinary exception, the Modifier is as it was. -/
+theorem step_follow_refused {env : Env} {fs : FS} {st : MState} (ans : List Str)
+    (h : followRefused env fs st = true) :
+    step env (.symlink .follow) fs st ans = ⟨fs, st, ans, [], .error .unsafeTarget⟩ := by
+  simp only [followRefused, Bool.and_eq_true, Bool.not_eq_true'] at h
+  simp only [step, h.1, h.2]
+  simp
+
+/-- `symlink_follow` otherwise (not a symlink, or a symlink with an acceptable real path). -/
+theorem step_follow {env : Env} {fs : FS} {st : MState} (ans : List Str)
+    (h : followRefused env fs st = false) :
     step env (.symlink .follow) fs st ans =
       ⟨fs, if isLink fs st.cur then { st with cur := (resolve fs st.cur).getD st.cur } else st, ans, [], .done⟩ := by
   simp only [step]
-  split <;> simp [*]
+  by_cases hl : isLink fs st.cur = true
+  · have hs : env.realSafe ((resolve fs st.cur).getD st.cur) = true := by
+      simpa [followRefused, hl] using h
+    simp [hl, hs]
+  · simp [hl]
+
+theorem step_follow_done {env : Env} {fs : FS} {st : MState} {ans : List Str}
+    (hd : (step env (.symlink .follow) fs st ans).oc = .done) : followRefused env fs st = false := by
+  cases h : followRefused env fs st with
+  | false => rfl
+  | true => rw [step_follow_refused ans h] at hd; simp at hd
 
 theorem action_cases (a : Action) :
     (a = .print ∨ a = .diff ∨ a = .exec ∨ a = .replace) ∨ a = .ifchanged ∨
@@ -348,9 +400,12 @@ theorem step_mono (env : Env) (a : Action) (fs : FS) (st : MState) (ans : List S
   · obtain ⟨_, h2⟩ := step_simple env a fs st ans ha
     rw [h2]; exact ⟨fun _ h => h, fun _ h => h⟩
   · subst ha
-    rw [step_follow]
-    simp only
-    split <;> exact ⟨fun _ h => h, fun _ h => h⟩
+    cases hr : followRefused env fs st with
+    | true => rw [step_follow_refused ans hr]; exact ⟨fun _ h => h, fun _ h => h⟩
+    | false =>
+      rw [step_follow ans hr]
+      simp only
+      split <;> exact ⟨fun _ h => h, fun _ h => h⟩
 
 /-- `m.filename` changes only in `symlink_follow`. -/
 theorem step_cur_nofollow (env : Env) (a : Action) (fs : FS) (st : MState) (ans : List Str)
@@ -374,7 +429,9 @@ theorem step_cur_of_nonlink (env : Env) (a : Action) (fs : FS) (st : MState) (an
     (step env a fs st ans).st.cur = st.cur ∧ isLink (step env a fs st ans).fs st.cur = false := by
   have hcur : (step env a fs st ans).st.cur = st.cur := by
     by_cases ha : a = .symlink .follow
-    · subst ha; rw [step_follow]; simp [hl]
+    · subst ha
+      have hr : followRefused env fs st = false := by simp [followRefused, hl]
+      rw [step_follow ans hr]; simp [hl]
     · exact step_cur_nofollow env a fs st ans ha
   refine ⟨hcur, ?_⟩
   rcases step_fs env a fs st ans with h | ⟨_, _, _, o, _, h⟩
@@ -407,7 +464,7 @@ theorem step_Inv {env : Env} {fs0 fs : FS} {c0 : Option Content} {st : MState} (
   · obtain ⟨h1, h2⟩ := step_simple env a fs st ans h
     rw [h1, h2]; exact hJ
   · subst h
-    rw [step_follow]
+    rw [step_follow ans (step_follow_done hd)]
     simp only
     split
     · rename_i hl
@@ -471,7 +528,10 @@ theorem step_ans (env : Env) (a : Action) (fs : FS) (st : MState) (ans : List St
     · split <;> simp
     · split <;> simp
     · simp
-  · subst h; rw [step_follow]; exact Or.inl rfl
+  · subst h
+    cases hr : followRefused env fs st with
+    | true => rw [step_follow_refused ans hr]; exact Or.inl rfl
+    | false => rw [step_follow ans hr]; exact Or.inl rfl
 
 theorem step_symlink_done {env : Env} {pol : Policy} {fs : FS} {st : MState} {ans : List Str}
     (hp : pol = .skip ∨ pol = .error) (hd : (step env (.symlink pol) fs st ans).oc = .done) :
@@ -505,7 +565,10 @@ theorem step_sysexit {env : Env} {a : Action} {fs : FS} {st : MState} {ans : Lis
       · simp at h
     · split at h <;> simp at h
     · simp at h
-  · subst ha; rw [step_follow] at h; simp at h
+  · subst ha
+    cases hr : followRefused env fs st with
+    | true => rw [step_follow_refused ans hr] at h; simp at h
+    | false => rw [step_follow ans hr] at h; simp at h
 
 /-! ### The action loop of one file -/
 
@@ -534,6 +597,13 @@ theorem runActions_cons_done_inv {env : Env} {a : Action} {rest : List Action} {
   intro hd
   rw [runActions_cons_notdone hd] at h
   exact hd h
+
+/-- The whole turn of a file when `symlink_follow` heads the tuple and `Filename` refuses the real path:
+    the exception leaves the loop at once; file system, Modifier and answers are as they were, no event. -/
+theorem runActions_follow_refused {env : Env} {fs : FS} {st : MState} (rest : List Action) (ans : List Str)
+    (h : followRefused env fs st = true) :
+    runActions env (.symlink .follow :: rest) fs st ans = ⟨fs, st, ans, [], .error .unsafeTarget⟩ := by
+  rw [runActions_cons_notdone (by rw [step_follow_refused ans h]; simp), step_follow_refused ans h]
 
 /-- Per-file safety, for any coherent starting state: a node that differs after the loop was written by
     a REPLACE at some index `k`, reached with all of `acts.take k` completed, at `m.filename`, with the
@@ -888,8 +958,11 @@ theorem step_rewrites (env : Env) (a : Action) (fs : FS) (st : MState) (ans : Li
     rw [step_simple_ev env a fs st ans ha, h2]
     split <;> simp
   · subst ha
-    rw [step_follow]
-    by_cases hl : isLink fs st.cur = true <;> simp [budget, hl]
+    cases hr : followRefused env fs st with
+    | true => rw [step_follow_refused ans hr]; simp
+    | false =>
+      rw [step_follow ans hr]
+      by_cases hl : isLink fs st.cur = true <;> simp [budget, hl]
 
 theorem runActions_rewrites (env : Env) :
     ∀ (acts : List Action) (fs : FS) (st : MState) (ans : List Str),
@@ -927,6 +1000,16 @@ theorem processFile_errors (env : Env) (acts : List Action) (s : Run) (p : Path)
       | .error e => s.errors ++ [⟨p, e⟩]
       | _ => s.errors := by
   unfold processFile; simp only; split <;> simp_all
+
+/-- Body of the loop over files in that case: the error is collected under the link's own name; nothing
+    else of the loop state changes. -/
+theorem processFile_follow_refused {env : Env} (rest : List Action) (s : Run) (p : Path)
+    (h : followRefused env s.fs (MState.fresh p) = true) :
+    processFile env (.symlink .follow :: rest) s p =
+      { s with ev := s.ev ++ [.begin p, .failed p .unsafeTarget], errors := s.errors ++ [⟨p, .unsafeTarget⟩] } := by
+  unfold processFile
+  rw [runActions_follow_refused rest s.ans h]
+  simp
 
 @[simp] theorem processFiles_nil (env : Env) (acts : List Action) (s : Run) : processFiles env acts [] s = s := rfl
 
